@@ -7,7 +7,7 @@ from vlib import chainspace as cs
 LEVEL = "exploration"
 RULE = ("Bounded-exhaustive: every sequence of length 0..N over link kinds {await coroutine, await types.coroutine "
         "generator, __await__ returning a coroutine wrapper, __await__ running a delegating generator, asend(None), asend(<an async generator object>), __anext__, "
-        "async for, athrow, aclose} x terminal {trap, plain-iterator leaf, falsy future-like leaf that is its own iterator, future-like leaf that speaks the generator protocol (send/throw/close) without being a generator} x outer kind {coroutine, generator-based "
+        "async for, athrow, aclose, `async with` whose __aexit__ awaits the rest (the owning frame is suspended while leaving the block)} x terminal {trap, plain-iterator leaf, falsy future-like leaf that is its own iterator, future-like leaf that speaks the generator protocol (send/throw/close) without being a generator} x outer kind {coroutine, generator-based "
         "coroutine} x {links suspend first themselves, or not}; plus pure yield-from generator chains, plus ten deep chains (60-150 links, plain and mixed); every suspension "
         "point k of each (chain rebuilt and advanced k steps), plus the exhausted state (the root and every coroutine / generator / async generator the chain was made of: no frames once finished or closed, only its own frame when parked at its own yield). Oracle: frames and line numbers of "
         "the traceback of an exception thrown into the root right after extraction. evaluations = (chain, position) "
